@@ -13,7 +13,10 @@ from wv.refquery import ref_eval, to_whoosh
 
 PROP = "C16"
 LEVEL = "exploration"
-RULE = ("(1) totality - input strings are generated from a token-soup grammar (operators in both cases, brackets, "
+RULE = ("(0) matrix - every parser configuration x every field prefix (each field type, no prefix, an unknown field) x 46 "
+        "construct templates (words, numbers, date words, phrases with and without slop, wildcards, fuzzy, boosts, ranges "
+        "of every bracket form and open end, comparison operators, groups, malformed pieces) enumerated completely, same "
+        "oracle as (1). (1) totality - input strings are generated from a token-soup grammar (operators in both cases, brackets, "
         "quotes, colons, carets, tildes, < > =, TO, * ? [ ], field names of every field type incl. numeric / float / "
         "decimal / date / boolean / n-gram and an unknown field, numbers, date words, stop words, characters from all "
         "unicode planes, several whitespace kinds) mixed with arbitrary text, and parsed by each of 18 parser "
@@ -169,6 +172,26 @@ def run_totality(case, out):
         pass
     out.nontrivial = len(kinds - {"Whitespace"}) >= 2
     out.label("config_" + case["config"])
+
+
+# every construct of the language on every field type: the systematic part of totality (the token soup only meets a
+# given field type x construct pair by chance)
+FIELD_PREFIXES = ["", "text:", "title:", "kw:", "id:", "num:", "fl:", "dec:", "date:", "flag:", "ng:", "ngw:", "st:", "nosuch:"]
+CONSTRUCTS = ["alfa", "5", "-3.5", "true", "2010", "'june 2010'", '"alfa bravo"', '"alfa bravo"~3', '"~3"~3', '"5"', '""',
+              "alf*", "a?fa", "*", "?", "alfa~", "alfa~2/2", "alfa^2", "alfa^x", "[a TO z]", "{a TO z}", "[TO z]", "[a TO]",
+              "[1 TO 10]", "{-5 TO 5]", "[2001 TO 2011]", "[true TO false]", "[a TO", "TO]", ">5", "<=alfa", ">", "(alfa bravo)",
+              "(alfa OR 5)^2", "NOT alfa", "alfa AND", "+alfa -bravo", "r\"al.a\"", "r\"[\"", "alfa:bravo", "\u00e9t\u00e9",
+              "\U0001f600", "alfa ANDNOT [1 TO 2]", "'unterminated", "<alfa>", "a" * 300]
+
+
+def matrix_enum(tier, shard, nshards):
+    i = 0
+    for cfg in CONFIGS:
+        for fp in FIELD_PREFIXES:
+            for c in CONSTRUCTS:
+                if i % nshards == shard:
+                    yield {"qstring": fp + c, "config": cfg}
+                i += 1
 
 
 # ---------------------------------------------------------------------------------------------------- meaning
@@ -443,6 +466,7 @@ def run_plusminus(case, out):
 
 SUBS = {
     "plusminus": Sub(run_plusminus, plusminus_strategy, quick=150, thorough=2000, quick_shards=8),
+    "matrix": Sub(run_totality, enum=matrix_enum, quick_shards=8),
     "totality": Sub(run_totality, totality_strategy, quick=500, thorough=8000, quick_shards=8),
     "meaning": Sub(run_meaning, meaning_strategy, quick=150, thorough=3000, quick_shards=8),
 }
